@@ -24,7 +24,7 @@ OBLIGATIONS = [
     "agentdef_wire_keeps_costs", "roundtrip_variable_with_cost_dict", "roundtrip_ordered_node",
     "roundtrip_constraint_link", "roundtrip_domain", "roundtrip_computation_def_pseudotree",
     "roundtrip_computation_def_factor_graph", "roundtrip_computation_def_hypergraph",
-    "roundtrip_computation_def_ordered_graph",
+    "roundtrip_computation_def_ordered_graph", "colliding_keys_refuted",
 ]
 N_QUICK, N_THOROUGH = 200, 2500
 PARALLEL = 8
